@@ -180,19 +180,29 @@ impl<'a> Cx<'a> {
     }
 }
 
+/// The two absolute-scale input classes existed to give the symptoms of the absolute-epsilon defect
+/// of QR/SVD (repaired in /repo, commit 6c64a71) their own site keys; with the defect gone, the
+/// class of an input no longer depends on its scale.
+const CLASSIFY_BY_ABSOLUTE_SCALE: bool = false;
+
 /// Input class used in site keys; a predicate of the input alone (decided by the oracle).
 pub fn input_class(inp: &Input, scale: f64, eps: f64) -> &'static str {
     if inp.rank == 0 {
         "zero-matrix"
-    } else if inp.sv[inp.rank - 1] * scale <= 4.0 * eps {
+    } else if CLASSIFY_BY_ABSOLUTE_SCALE && inp.sv[inp.rank - 1] * scale <= 4.0 * eps {
         // the smallest non-zero singular value is below 4*eps_T in ABSOLUTE size: a comparison of a
         // column norm with the absolute constant T::epsilon() fires although the matrix is
         // perfectly conditioned (the statement is scale-free down to 1e-12)
         "sigma-min-below-4eps-absolute"
     } else if inp.rank < inp.n {
-        // non-trivial null space (rank-deficient, or wide): A has an exactly zero singular value
-        "rank<n"
-    } else if inp.sv[0] * scale <= 1.0 / 64.0 {
+        // non-trivial null space: A has an exactly zero singular value - either only because it is
+        // wide with full row rank, or because it is rank-deficient proper
+        if inp.m < inp.n && inp.rank == inp.m {
+            "wide-full-row-rank"
+        } else {
+            "rank-deficient"
+        }
+    } else if CLASSIFY_BY_ABSOLUTE_SCALE && inp.sv[0] * scale <= 1.0 / 64.0 {
         // |A|_2 <= 2^-6 (absolute): a matrix that has been scaled down. A quantity q dropped because
         // q <= T::epsilon() is then significant relative to |A| (q/|A| up to 64*eps_T and more)
         "norm-below-2^-6-absolute"
@@ -204,7 +214,7 @@ pub fn input_class(inp: &Input, scale: f64, eps: f64) -> &'static str {
 /// In the three input regimes in which comparisons with the ABSOLUTE constant T::epsilon() decide
 /// branches of QR / SVD, all accuracy clauses of an operation share one clause key.
 fn in_abs_eps_regime(cls: &str) -> bool {
-    matches!(cls, "sigma-min-below-4eps-absolute" | "norm-below-2^-6-absolute" | "rank<n")
+    matches!(cls, "sigma-min-below-4eps-absolute" | "norm-below-2^-6-absolute" | "wide-full-row-rank" | "rank-deficient")
 }
 
 const ACCURACY_CLAUSES: &[&str] = &[
